@@ -412,6 +412,11 @@ def run_history(ctx, rng, sizes, evs, desc, check=True):
             model.append("ENew %s %s %s" % (ct.nat(v[0]), zlist(v[1]), natlist([ev[3]])))
             resolved.append(ev)
         elif k == "newMux":
+            # the constructor requires targets of one width: re-target the later choices onto handles of the
+            # width of the first one (deterministic; possibly the same object twice - shared targets)
+            w0 = handles[ev[2][0]].num_wires
+            cands = [i for i, hd in enumerate(handles) if hd.num_wires == w0]
+            ev = [ev[0], ev[1], [a if handles[a].num_wires == w0 else cands[a % len(cands)] for a in ev[2]]]
             g = qib.MultiplexedGate([handles[a] for a in ev[2]], len(ev[1])).set_control([qubit(F, p) for p in ev[1]])
             handles.append(g)
             v = value_of(g, F, codes)
@@ -459,6 +464,11 @@ def run_history(ctx, rng, sizes, evs, desc, check=True):
             new = handles[h2]
             if any(o is obj for o in reach(new)):
                 continue                                   # would tie a knot (RecursionError in copy/as_matrix)
+            # an assignment that leaves some multiplexer with targets of unequal width makes an object the
+            # constructor (hence copy()/append_gate) refuses: not a gate of the property, skipped
+            old_w = (obj.tgate if hasattr(obj, "tgate") else obj.tgates[i]).num_wires
+            if new.num_wires != old_w:
+                continue
             before = [snapshot_matrix(c, F) for c in circs]
             if hasattr(obj, "tgate"):
                 obj.tgate = new
